@@ -47,6 +47,14 @@ type vRealLister struct {
 
 func (l *vRealLister) sync() {
 	segs := l.h.listing()
+	if !l.put[-1000] {
+		l.put[-1000] = true
+		l.s3.PageSize = l.h.c.page
+		// filler objects that are no segment keys, sorting before every topic ("t…")
+		for k := 0; k < l.h.c.fill; k++ {
+			l.s3.Put(fmt.Sprintf("a-fill/%06d", k), []byte("x"))
+		}
+	}
 	for i := range segs {
 		if l.put[i] {
 			continue
